@@ -599,6 +599,42 @@ func c12Trip(r *core.Run, fn *ssa.Function) {
 			inclusive = ph
 		}
 	})
+	// the same flag kept in a field of a local struct: stores of true exactly under <= and >=
+	inclusiveField := ""
+	{
+		under := map[string]map[token.Token]bool{}
+		core.InstrsOf(fn, func(in ssa.Instruction) {
+			st, ok := in.(*ssa.Store)
+			if !ok {
+				return
+			}
+			c, isC := st.Val.(*ssa.Const)
+			if !isC || c.Value == nil || c.Value.String() != "true" {
+				return
+			}
+			key, ok := core.LocalFieldAddrKey(st.Addr)
+			if !ok {
+				return
+			}
+			var gate []token.Token
+			if op := tripOperatorPhi(fn); op != nil {
+				gate = phiTokensGating(fn, st.Block(), op)
+			} else {
+				gate, _ = tokensGating(fn, st.Block(), "Op")
+			}
+			if under[key] == nil {
+				under[key] = map[token.Token]bool{}
+			}
+			for _, g := range gate {
+				under[key][g] = true
+			}
+		})
+		for key, ts := range under {
+			if len(ts) == 2 && ts[token.LEQ] && ts[token.GEQ] {
+				inclusiveField = key
+			}
+		}
+	}
 	nDead := 0
 	core.InstrsOf(fn, func(in ssa.Instruction) {
 		ph, ok := in.(*ssa.Phi)
@@ -643,6 +679,11 @@ func c12Trip(r *core.Run, fn *ssa.Function) {
 				base, negI := core.StripNot(cond)
 				if inclusive != nil && base == ssa.Value(inclusive) {
 					return true, negI
+				}
+				if inclusiveField != "" {
+					if k, ok := core.LocalFieldKey(base); ok && k == inclusiveField {
+						return true, negI
+					}
 				}
 				return false, false
 			})
@@ -807,6 +848,31 @@ func c12Eval(r *core.Run) {
 				if ex, isEx := o.(*ssa.Extract); isEx {
 					if _, isLk := ex.Tuple.(*ssa.Lookup); isLk {
 						ok = true // a cached result
+					}
+					// ... or what a cache helper of the package found (it returns lookups of the cache only)
+					if hc, isCall := ex.Tuple.(*ssa.Call); isCall {
+						if g := core.StaticCallee(&hc.Call); g != nil && p.IsProdFunc(g) && g.Blocks != nil {
+							all := true
+							for _, gret := range core.Returns(g) {
+								if ex.Index >= len(gret.Results) {
+									all = false
+									continue
+								}
+								for _, go2 := range core.Origins(gret.Results[ex.Index]) {
+									e2, isE2 := go2.(*ssa.Extract)
+									_, isLk2 := ssa.Value(nil).(*ssa.Lookup)
+									if isE2 {
+										_, isLk2 = e2.Tuple.(*ssa.Lookup)
+									}
+									if !core.IsNilConst(go2) && !isLk2 {
+										all = false
+									}
+								}
+							}
+							if all {
+								ok = true
+							}
+						}
 					}
 				}
 				r.Check(ok, "C12.EVAL", fnm+"#returns-owned-value", ret.Pos(), "EvaluateAt returns a fresh, cached or sub-expression value", "EvaluateAt hands out "+core.Canon(o)+", a value owned by the expression node: a caller that accumulates into it rewrites the expression")
